@@ -95,6 +95,9 @@ func (s *sched) watched(fn *ssa.Function) bool {
 		if fn != nil && fn.Parent() != nil {
 			return s.watched(fn.Parent())
 		}
+		if fn != nil && fn.Origin() != nil && fn.Origin() != fn {
+			return s.watched(fn.Origin()) // instantiation of a generic function
+		}
 		return false
 	}
 	p := fn.Pkg.Pkg.Path()
@@ -250,6 +253,84 @@ func (s *sched) unlock(fr *frame, m *mutexState) {
 	m.rel = s.cur.vc.copy()
 	s.tick()
 	s.point(fr)
+}
+
+// readers/writer lock: readers do not synchronise with each other, only with writers
+func (s *sched) rlock(fr *frame, m *mutexState) {
+	s.point(fr)
+	s.block("sync.RWMutex.RLock", func() bool { return !m.locked })
+	m.readers++
+	if m.rel != nil {
+		s.cur.vc.join(m.rel)
+	}
+	s.tick()
+}
+
+func (s *sched) runlock(fr *frame, m *mutexState) {
+	m.readers--
+	if m.rrel == nil {
+		m.rrel = s.cur.vc.copy()
+	} else {
+		m.rrel.join(s.cur.vc)
+	}
+	s.tick()
+	s.point(fr)
+}
+
+func (s *sched) wlock(fr *frame, m *mutexState) {
+	s.point(fr)
+	s.block("sync.RWMutex.Lock", func() bool { return !m.locked && m.readers == 0 })
+	m.locked = true
+	m.owner = s.cur
+	if m.rel != nil {
+		s.cur.vc.join(m.rel)
+	}
+	if m.rrel != nil {
+		s.cur.vc.join(m.rrel)
+	}
+	s.tick()
+}
+
+// sync.Once: the first caller runs f, the others wait for it; f's completion
+// happens before every return of Do
+func (s *sched) once(fr *frame, p *value, f value) {
+	o := onces[p]
+	if o == nil {
+		o = &onceState{}
+		onces[p] = o
+	}
+	s.point(fr)
+	if !o.done && !o.running {
+		o.running = true
+		call(fr.i, fr, token.NoPos, f, nil)
+		o.done = true
+		o.clock = s.cur.vc.copy()
+		s.tick()
+		s.point(fr)
+		return
+	}
+	s.block("sync.Once.Do", func() bool { return o.done })
+	s.cur.vc.join(o.clock)
+	s.tick()
+}
+
+func (s *sched) wgRelease(fr *frame, w *wgState) {
+	if w.clock == nil {
+		w.clock = s.cur.vc.copy()
+	} else {
+		w.clock.join(s.cur.vc)
+	}
+	s.tick()
+	s.point(fr)
+}
+
+func (s *sched) wgWait(fr *frame, w *wgState) {
+	s.point(fr)
+	s.block("sync.WaitGroup.Wait", func() bool { return w.n <= 0 })
+	if w.clock != nil {
+		s.cur.vc.join(w.clock)
+	}
+	s.tick()
 }
 
 var atomicClocks = map[*value]vclock{}
